@@ -1074,6 +1074,85 @@ theorem unary_operator_is_dispatch (np : NpInfo) (settings : Option (Bool × Boo
   have hf := genWiring_fwd op (by rcases hop with rfl | rfl <;> simp [allOps])
   simp [applyOperator, hf]
 
+/-! ## Round 10: the logical operators compose over whole expressions (every setting, any depth) -/
+
+/-- expressions over boolean Vars built with `& | ^` and `~` -/
+inductive LExpr
+  | var (i : Nat)
+  | not (e : LExpr)
+  | bin (op : Op) (l r : LExpr)
+
+/-- every binary operator of the expression is one of `& | ^` -/
+def LExpr.logicOnly : LExpr → Bool
+  | .var _ => true
+  | .not e => e.logicOnly
+  | .bin op l r => logicOps.contains op && l.logicOnly && r.logicOnly
+
+/-- numpy: `np.logical_and/or/xor/not` composed (`env i` = the value of boolean Var `i`) -/
+def npLExpr (env : Nat → Bool) : LExpr → Bool
+  | .var i => env i
+  | .not e => npLogical .not_ (npLExpr env e) false
+  | .bin op l r => npLogical op (npLExpr env l) (npLExpr env r)
+
+/-- spox: every application dispatched on the element types of its operands (the ones computed for the
+    sub-expressions), the emitted operator evaluated by ONNX semantics on the operands' values -/
+def spoxLExpr (s : Bool × Bool) (env : Nat → Bool) : LExpr → Option (Nat × Int)
+  | .var i => some (boolDt, b2i (env i))
+  | .not e =>
+      match spoxLExpr s env e with
+      | some (d, x) =>
+          (match dispatch info (some s) .not_ (.var d) .other with
+           | .ok (tree, _) => eval info (.var d) .other x 0 tree
+           | .error _ => none)
+      | none => none
+  | .bin op l r =>
+      match spoxLExpr s env l, spoxLExpr s env r with
+      | some (dl, x), some (dr, y) =>
+          (match dispatch info (some s) op (.var dl) (.var dr) with
+           | .ok (tree, _) => eval info (.var dl) (.var dr) x y tree
+           | .error _ => none)
+      | _, _ => none
+
+theorem settings_mem (s : Bool × Bool) : s ∈ [(true, true), (true, false), (false, true), (false, false)] := by
+  obtain ⟨a, b⟩ := s; cases a <;> cases b <;> simp
+
+theorem bool_mem (x : Bool) : x ∈ [false, true] := by cases x <;> simp
+
+/-- **`& | ^ ~` on boolean Vars are numpy's logical operators over whole expressions**: for every expression
+    tree (any depth, any re-use of Vars), every promotion setting and every assignment of truth values, the
+    graph spox emits is accepted, stays boolean at every intermediate and evaluates to numpy's value.
+    Lifts the one-application table `logical_matches` by induction. -/
+theorem logical_expr_matches (s : Bool × Bool) (env : Nat → Bool) :
+    ∀ e : LExpr, e.logicOnly = true → spoxLExpr s env e = some (boolDt, b2i (npLExpr env e))
+  | .var i, _ => rfl
+  | .not e, h => by
+    simp only [LExpr.logicOnly] at h
+    have ih := logical_expr_matches s env e h
+    have hm := (logical_matches s (settings_mem s) (npLExpr env e) (bool_mem _) false (bool_mem _)).2
+    cases hd : dispatch info (some s) .not_ (.var boolDt) .other with
+    | error err => simp [hd] at hm
+    | ok p =>
+      obtain ⟨tree, d⟩ := p
+      simp only [hd, Bool.and_eq_true, beq_iff_eq] at hm
+      simp only [spoxLExpr, ih, hd, npLExpr, hm.2]
+  | .bin op l r, h => by
+    simp only [LExpr.logicOnly, Bool.and_eq_true, List.contains_iff_mem] at h
+    obtain ⟨⟨hop, hl⟩, hr⟩ := h
+    have ihl := logical_expr_matches s env l hl
+    have ihr := logical_expr_matches s env r hr
+    have hm := (logical_matches s (settings_mem s) (npLExpr env l) (bool_mem _) (npLExpr env r) (bool_mem _)).1 op hop
+    cases hd : dispatch info (some s) op (.var boolDt) (.var boolDt) with
+    | error err => simp [hd] at hm
+    | ok p =>
+      obtain ⟨tree, d⟩ := p
+      simp only [hd, Bool.and_eq_true, beq_iff_eq] at hm
+      simp only [spoxLExpr, ihl, ihr, hd, npLExpr, hm.2]
+
+/-- Consequence: what is computed does not depend on the promotion settings of the block. -/
+theorem logical_expr_setting_independent (s s' : Bool × Bool) (env : Nat → Bool) (e : LExpr)
+    (h : e.logicOnly = true) : spoxLExpr s env e = spoxLExpr s' env e := by
+  rw [logical_expr_matches s env e h, logical_expr_matches s' env e h]
+
 /-! ## What does not hold (listed findings), with the part that does -/
 
 /-- Known finding `neg:unsigned:refused`: numpy negates unsigned arrays (wrap-around), ONNX defines no
@@ -1120,5 +1199,11 @@ example : resultDtype (dispatch info (some (true, true)) .truediv (.var 2) (.var
 example : resultDtype (dispatch info (some (true, true)) .add (.var 7) (.var 3)) = some f64 := by decide +kernel
 example : isErr (dispatch info (some (false, true)) .add (.var 2) .pyFloat) .typeError = true := by decide +kernel
 example : isErr (dispatch info (some (true, true)) .add (.var 0) (.pyInt 1000)) .overflowError = true := by decide +kernel
+
+-- ~(x0 & x1) ^ (x0 | ~x1) with x0 = True, x1 = False: numpy True ^ True = False, and so does the emitted graph, promotion off
+example : npLExpr (fun i => [true, false].getD i false) (.bin .xor (.not (.bin .and_ (.var 0) (.var 1))) (.bin .or_ (.var 0) (.not (.var 1)))) = false ∧
+    spoxLExpr (false, false) (fun i => [true, false].getD i false)
+      (.bin .xor (.not (.bin .and_ (.var 0) (.var 1))) (.bin .or_ (.var 0) (.not (.var 1)))) = some (boolDt, 0) := by
+  decide +kernel
 
 end C17
